@@ -923,9 +923,9 @@ func (in *interp) rangeIter(x value, t types.Type) iter {
 	switch x := x.(type) {
 	case *smap:
 		if x == nil {
-			return &mapIter{}
+			return &mapIter{ts: in.ts}
 		}
-		return &mapIter{snap: append([]*mentry{}, x.entries...), m: x}
+		return &mapIter{snap: append([]*mentry{}, x.entries...), m: x, ts: in.ts}
 	case string, symstr:
 		return &stringIter{in: in, s: x}
 	}
